@@ -16,6 +16,9 @@ mod cmd_real;
 mod mutate;
 mod cmd_tamper;
 mod cmd_pubinput;
+mod cmd_airvals;
+mod cmd_linear;
+mod cmd_parser;
 mod merkle;
 mod hashes;
 mod terms;
@@ -37,6 +40,10 @@ fn main() {
         "queries" => cmd_queries::run(rest),
         "config" => cmd_config::run(rest),
         "fri" => cmd_fri::run(rest),
+        "parser-streams" => cmd_parser::run_streams(rest),
+        "parser-files" => cmd_parser::run_files(rest),
+        "linear" => cmd_linear::run(rest),
+        "airvals" => cmd_airvals::run(rest),
         "pi-seed" => cmd_pubinput::run_seed(rest),
         "pi-validate" => cmd_pubinput::run_validate(rest),
         "tamper" => cmd_tamper::run_tamper(rest),
